@@ -49,6 +49,31 @@ def make_fem():
     return fd
 
 
+def make_rich():
+    """a second, richer object for the oracle-only stream: mixed hex + tet + prism mesh with non-default ids, nodal and
+    elemental variables of several widths, an element group and a material (so that every data / group branch of the
+    writers runs)"""
+    import femio
+    from femio import FEMAttribute, FEMElementalAttribute
+    with contextlib.redirect_stdout(io.StringIO()):
+        nodes = FEMAttribute('NODE', ids=np.array([11, 3, 7, 19, 23, 2, 31, 5, 41, 43]),
+                             data=np.array([[0, 0, 0], [1, 0, 0], [1, 1, 0], [0, 1, 0], [0, 0, 1], [1, 0, 1], [1, 1, 1],
+                                            [0, 1, 1], [2, 0, 0], [2, 1, 0]], dtype=float))
+        elements = FEMElementalAttribute('ELEMENT', {
+            'hex': FEMAttribute('hex', ids=np.array([9]), data=np.array([[11, 3, 7, 19, 23, 2, 31, 5]])),
+            'tet': FEMAttribute('tet', ids=np.array([4]), data=np.array([[3, 41, 43, 2]])),
+            'prism': FEMAttribute('prism', ids=np.array([6]), data=np.array([[3, 43, 7, 2, 41, 31]]))})
+        fd = femio.FEMData(nodes=nodes, elements=elements)
+        n = len(nodes.ids)
+        fd.nodal_data.update_data(nodes.ids, {'T': np.arange(n, dtype=float)[:, None],
+                                              'U': np.arange(3 * n, dtype=float).reshape(n, 3)})
+        fd.elemental_data.update_data(elements.ids, {'E': np.array([[1.5], [2.5], [3.5]]),
+                                                     'S': np.arange(18, dtype=float).reshape(3, 6)})
+        fd.settings['solution_type'] = 'STATIC'
+        fd.element_groups = {'G': np.array([9, 4])}
+    return fd
+
+
 def spellings(fmt):
     e = EXT.get(fmt, 'dat')
     return [('bare-stem', 'mesh', []), ('stem+ext', f'mesh.{e}', []), ('ends-in-ext-letters', f'mesh{e}', []),
@@ -143,7 +168,7 @@ def snapshot(root):
     return snap
 
 
-def run_real(ctx, fd, fmt, msh_only, name, mkdirs, present, overwrite):
+def run_real(ctx, fd, fmt, msh_only, name, mkdirs, present, overwrite, prepare=None):
     root = ctx.tmp / 'w'
     if root.exists():
         shutil.rmtree(root)
@@ -153,6 +178,8 @@ def run_real(ctx, fd, fmt, msh_only, name, mkdirs, present, overwrite):
     for p in present:
         (root / p).parent.mkdir(parents=True, exist_ok=True)
         (root / p).write_bytes(b'OLD:' + p.encode())
+    if prepare is not None:
+        fd = prepare(root)
     before = snapshot(root)
     err = None
     cwd = os.getcwd()
@@ -275,8 +302,73 @@ def run(ctx):
             for case, impl, model in mismatch[(1, 0)][:20]:
                 ctx.disagree('outcome differs from Cfg.fixed' + (f' (tree behaves as Cfg {names[best]})' if agree else ''),
                              case, impl, model)
+    oracle_only_stream(ctx)
     ctx.extra['exhaustive'] = not ctx.quick
     ctx.extra.pop('_fd', None)
+
+
+def _oracle(ctx, sig_prefix, fmt, name, case, err, before, after):
+    for p, b in before.items():
+        if after.get(p) != b:
+            ctx.fail(f'clobber:{fmt}:{sig_prefix}',
+                     f'write({fmt!r}, {name!r}, overwrite=False) changed the existing file {p!r}'
+                     f' ({"deleted" if p not in after else "content replaced"}; raised: {err})',
+                     case, {'path': p, 'raised': err, 'deleted': p not in after})
+
+
+def oracle_only_stream(ctx):
+    """inputs the model is not run on (the theorems do not depend on the object written; the correspondence above is
+    made with one object): (a) a richer object - mixed mesh, nodal + elemental variables, groups - so that every data
+    branch of the writers runs; (b) the default target name (file_name=None -> <input file>.out.<ext>) of an object that
+    was read from a file.  Candidates = the paths the writer touches in an otherwise empty directory (audit hook); every
+    subset of them pre-exists in turn; the oracle is the byte-for-byte snapshot comparison."""
+    import femio
+    rich = make_rich()
+    for fmt, msh_only in FORMATS:
+        for sclass, name, mkdirs in spellings(fmt)[:2]:
+            cand, _ = candidates(fmt, name)
+            try:
+                for p in discover(ctx, rich, fmt, msh_only, name, mkdirs or []):
+                    if p not in cand and len(cand) < 6:
+                        cand.append(p)
+            except Exception:
+                pass
+            subsets = [s for r in range(len(cand) + 1) for s in itertools.combinations(cand, r)]
+            if ctx.quick:
+                subsets = [s for s in subsets if len(s) in (1, len(cand))]
+            for present in subsets:
+                err, before, after = run_real(ctx, rich, fmt, msh_only, name, mkdirs, list(present), False)
+                case = {'stream': 'rich-object', 'format': fmt, 'write_msh_only': msh_only, 'spelling': sclass, 'name': name,
+                        'pre_existing': list(present), 'overwrite': False}
+                ctx.case(('rich', fmt, msh_only, name, tuple(present)), sample={**case, 'raised': err}, nontrivial=True)
+                ctx.count('oracle-only:rich-object:' + (err or 'ok'))
+                _oracle(ctx, 'rich-object:' + kind_of(fmt, name, '') , fmt, name, case, err, before, after)
+    # (b) default name
+    def prepare(root):
+        (root / 'in').mkdir(exist_ok=True)
+        src = root / 'in' / 'mesh.inp'
+        if not src.exists():
+            with contextlib.redirect_stdout(io.StringIO()):
+                make_fem().write('ucd', str(src))
+        with contextlib.redirect_stdout(io.StringIO()):
+            fd = femio.read_files('ucd', [str(src)])
+            fd.settings['solution_type'] = 'STATIC'
+        return fd
+    for fmt, msh_only in FORMATS:
+        ext = EXT.get(fmt)
+        stem = 'in/mesh.inp.out.' + (ext or {'fistr': 'msh', 'vtk': 'vtk'}.get(fmt, 'dat'))
+        cand = ['in/mesh.inp.out', stem, stem + '.bak', stem + '.msh', stem + '.cnt', 'in/hecmw_ctrl.dat']
+        for present in [()] + [(c,) for c in cand] + [tuple(cand)]:
+            try:
+                err, before, after = run_real(ctx, None, fmt, msh_only, None, [], list(present), False, prepare=prepare)
+            except Exception as e:      # the preparation itself (writing / reading the input) failed: not this property
+                ctx.count('oracle-only:default-name:prepare-failed:' + type(e).__name__)
+                continue
+            case = {'stream': 'default-name', 'format': fmt, 'write_msh_only': msh_only, 'name': None,
+                    'pre_existing': list(present), 'overwrite': False}
+            ctx.case(('default-name', fmt, msh_only, tuple(present)), sample={**case, 'raised': err}, nontrivial=bool(present))
+            ctx.count('oracle-only:default-name:' + (err or 'ok'))
+            _oracle(ctx, 'default-name', fmt, 'None', case, err, before, after)
 
 
 def replay(ctx, obj):
